@@ -200,10 +200,11 @@ type Gen struct {
 	// Weights can be tuned by the property using the generator.
 	WDelete, WCompact, WRestart, WStale int
 	NoStale                             bool
+	OOOTenths                           int // tenths of the samples that are stamped behind the clock (default 2)
 }
 
 func NewGen(r *rand.Rand, cfg Config) *Gen {
-	g := &Gen{R: r, Cfg: cfg, Clock: cfg.Base, WDelete: 6, WCompact: 14, WRestart: 5, WStale: 3}
+	g := &Gen{R: r, Cfg: cfg, Clock: cfg.Base, WDelete: 6, WCompact: 14, WRestart: 5, WStale: 3, OOOTenths: 2}
 	g.hists = make([]*gen.AbsHist, cfg.NumSeries)
 	g.kinds = make([]string, cfg.NumSeries)
 	for i := range g.kinds {
@@ -307,8 +308,8 @@ func (g *Gen) Next() Op {
 	n := 1 + r.IntN(g.Cfg.NumSeries)
 	for _, si := range r.Perm(g.Cfg.NumSeries)[:n] {
 		s := SampleOp{Series: si}
-		switch r.IntN(10) {
-		case 0, 1: // out of order: behind the clock
+		switch k := r.IntN(10); {
+		case k < g.OOOTenths: // out of order: behind the clock
 			back := int64(1)
 			if g.Cfg.OOOWindow > 0 {
 				back = 1 + r.Int64N(2*g.Cfg.OOOWindow)
@@ -316,7 +317,7 @@ func (g *Gen) Next() Op {
 				back = 1 + r.Int64N(R)
 			}
 			s.T = g.Clock - back
-		case 2: // slightly ahead
+		case k == g.OOOTenths: // slightly ahead
 			s.T = g.Clock + int64(r.IntN(3))
 		default:
 			s.T = g.Clock
